@@ -74,6 +74,7 @@ type Verifier struct {
 	localNames       map[*Object]string
 	writeLog         map[*Object]bool
 	ringUsed         map[string]bool
+	specOnlyFrames   bool           // newFrame may be called for a body-less function (contract evaluation on concrete runs)
 	frameChecks      int            // writes to entry objects compared with the modifies clause of the function under contract
 	moduleVars       map[*Term]bool // variables that denote elements of an abstract abelian group (module layer)
 	layerKeys        map[*Contract]string
